@@ -2229,6 +2229,9 @@ class Engine:
                     r = r * a
                 return r
             if isinstance(a, int) and a == 2:
+                # 2**e is an int only for e >= 0 (a float otherwise): the modelled range is an obligation
+                if not getattr(self, 'in_spec', False):
+                    self.oblige('hazard', 'exponent of 2**e is non-negative (modelled range: int result)', toz(b) >= 0, node.lineno)
                 return specs_pow2(toz(b))
             raise Unsupported('symbolic power')
         raise Unsupported('binary operator {}'.format(type(op).__name__))
